@@ -464,6 +464,9 @@ func (x *Exec) mergeMany(ss []*State) []*State {
 	if len(ss) <= 1 {
 		return ss
 	}
+	if x.c != nil && x.c.Opts["nomerge"] == "true" {
+		return ss
+	}
 	cur := ss[0]
 	var out []*State
 	for _, s := range ss[1:] {
